@@ -4,7 +4,7 @@
    Specification: CsvSpec.v (Split, QField, QBody, WsSplit).
    Delimiters: good_quoted_dlm dlm = non-empty, no double quote, and not starting with a space unless it is
    exactly one space (the regex eats the spaces that follow a quoted field, see C11_space_led_delimiter). *)
-From RBQL Require Import Base Csv CsvSpec CsvStr_Proofs Csv_Proofs CsvRoundtrip_Proofs CsvNecessity_Proofs CsvRelabel_Proofs.
+From RBQL Require Import Base Csv CsvSpec CsvStr_Proofs Csv_Proofs CsvRoundtrip_Proofs CsvNecessity_Proofs CsvRelabel_Proofs CsvWsPreserve_Proofs.
 
 (* the model computes exactly the dialect relation: a field is quoted iff some sp* QF sp* is followed by the
    delimiter or the end; otherwise it runs to the next delimiter; warning iff such a field contains a quote *)
@@ -44,6 +44,18 @@ Theorem C11_preserving_rejoin : forall (dlm line : str),
   dlm <> [] -> join dlm (fst (split_quoted_str dlm true line)) = line.
 Proof. exact preserving_rejoin. Qed.
 Print Assumptions C11_preserving_rejoin.
+
+(* whitespace policy, preserving mode: the pieces re-join with one space to the line, for every line with a
+   non-space character; a line of spaces only yields no piece at all (C11_ws_preserve_spaces_only_refuted) *)
+Theorem C11_ws_preserving_rejoin : forall (line : str),
+  has_nonspace line = true -> join [SP] (split_whitespace_separated_str true line) = line.
+Proof. exact ws_preserve_rejoin. Qed.
+Print Assumptions C11_ws_preserving_rejoin.
+
+Theorem C11_ws_preserve_spaces_only_refuted :
+  exists line, split_whitespace_separated_str true line = [] /\ join [SP] (split_whitespace_separated_str true line) <> line.
+Proof. exact ws_preserve_spaces_only_refuted. Qed.
+Print Assumptions C11_ws_preserve_spaces_only_refuted.
 
 (* the quote-free shortcut src.split(dlm) agrees with the general loop: every non-empty delimiter, both modes *)
 Theorem C11_fast_path : forall (dlm : str) (preserve : bool) (line : str),
